@@ -144,6 +144,14 @@ def imports(mod: Module) -> dict[str, tuple[str, str]]:
         if isinstance(n, ast.ImportFrom) and n.module and not n.level:
             for a in n.names:
                 out[a.asname or a.name] = (n.module, a.name)
+        elif isinstance(n, ast.ImportFrom) and n.module and n.level:
+            # `from .m import name`: relative to the package this module lives in (itself, when it is a package's __init__)
+            parts = mod.name.split(".")
+            up = n.level - (1 if mod.rel.endswith("__init__.py") else 0)
+            if 0 <= up < len(parts):
+                base = parts[:len(parts) - up]
+                for a in n.names:
+                    out[a.asname or a.name] = (".".join(base + [n.module]), a.name)
     return out
 
 
@@ -903,7 +911,15 @@ def is_bound_call(mod: Module, call: ast.Call, callee: ast.AST) -> bool:
         and isinstance(call.func.value, ast.Name) and call.func.value.id in ("self", "cls")
 
 
-def call_establishes(mod: Module, call: ast.Call, owner: Optional[ast.ClassDef], sets, in_with: bool, depth: int = 0) -> bool:
+def local_names_of_enclosing(mod: Module, node: ast.AST) -> set[str]:
+    """the names bound locally (parameters included) in the function node sits in; empty at module level"""
+    for p in mod.parents(node):
+        if isinstance(p, (ast.FunctionDef, ast.AsyncFunctionDef, ast.Lambda)):
+            return local_names(p) | params(p)
+    return set()
+
+
+def call_establishes(mod: Module, call: ast.Call, owner: Optional[ast.ClassDef], sets, in_with: bool, depth: int = 0, repo: Optional[Repo] = None) -> bool:
     """Does a module-wide setting hold when this call hands control back to its caller?  `sets(module, call, env, fn)` says
     of a call inside function fn whether it puts the setting in force (True), takes it back (False) or is unrelated (None),
     env giving the caller's argument expressions for fn's parameters.  The call establishes the setting when it is itself
@@ -916,6 +932,13 @@ def call_establishes(mod: Module, call: ast.Call, owner: Optional[ast.ClassDef],
     if v is not None:
         return bool(v)
     callee = resolve_callee(mod, call, owner)
+    if callee is None and repo is not None and isinstance(call.func, ast.Name) and call.func.id not in local_names_of_enclosing(mod, call):
+        # a module-level function of another module of the package, imported by name (`from .m import helper`): the same
+        # question is asked of its body, read in the module it is written in
+        rf = resolve_function(repo, mod, call.func.id)
+        if rf is not None:
+            mod, callee = rf
+            owner = None
     if not isinstance(callee, (ast.FunctionDef, ast.AsyncFunctionDef)) or depth > 2:
         return False
     yields = [y for y in own_nodes(callee) if isinstance(y, (ast.Yield, ast.YieldFrom))]
@@ -937,7 +960,7 @@ def call_establishes(mod: Module, call: ast.Call, owner: Optional[ast.ClassDef],
         if v is None and resolve_callee(mod, c, cowner) is not None:
             par = mod.parent.get(id(c))
             # a helper of the helper: followed when its arguments do not depend on this function's parameters
-            v = True if not (names_in(c) & set(env)) and call_establishes(mod, c, cowner, sets, isinstance(par, ast.withitem) and par.context_expr is c, depth + 1) else None
+            v = True if not (names_in(c) & set(env)) and call_establishes(mod, c, cowner, sets, isinstance(par, ast.withitem) and par.context_expr is c, depth + 1, repo) else None
         if v is True:
             up.append(g.node_of(c, mod))
         elif v is False:
@@ -1236,6 +1259,24 @@ def _following(mod: Module, st: ast.stmt) -> list:
     return []
 
 
+def _class_patterns(p: ast.AST) -> Optional[list[ast.expr]]:
+    """the classes C such that the match pattern p succeeds exactly when isinstance(subject, C) for one of them; None when the
+    pattern is anything else (a value, a sequence, a class pattern with sub-patterns, a wildcard)"""
+    if isinstance(p, ast.MatchAs) and p.pattern is not None:
+        return _class_patterns(p.pattern)
+    if isinstance(p, ast.MatchClass) and not p.patterns and not p.kwd_patterns:
+        return [p.cls]
+    if isinstance(p, ast.MatchOr):
+        out: list[ast.expr] = []
+        for q in p.patterns:
+            r = _class_patterns(q)
+            if r is None:
+                return None
+            out += r
+        return out
+    return None
+
+
 def dispatch_arms(repo: Repo, mod: Module, fn: ast.AST, var: str, env: Optional[dict[str, ast.expr]] = None, follow: bool = False, depth: int = 3, _stack: tuple = ()) -> Iterator[Arm]:
     """The arms of fn's dispatch on the class of the term held by `var`: for every class C, the code that runs when
     isinstance(var, C) holds -
@@ -1288,6 +1329,32 @@ def dispatch_arms(repo: Repo, mod: Module, fn: ast.AST, var: str, env: Optional[
             env2.update({x.id: r for x, r in zip(tg, row)})  # type: ignore[attr-defined]
             for c in (env2[k.id].elts if isinstance(env2[k.id], ast.Tuple) else [env2[k.id]]):  # type: ignore[attr-defined]
                 yield Arm(norm(c), body, env2, fn, n)
+    # `<a> if isinstance(var, C) else <b>` (or with `not`, the other way round): the arm is the expression that is evaluated when
+    # the test holds - Arm.body holds that one expression node
+    for n in ast.walk(fn):
+        if not isinstance(n, ast.IfExp):
+            continue
+        t, neg = n.test, False
+        while isinstance(t, ast.UnaryOp) and isinstance(t.op, ast.Not):
+            t, neg = t.operand, not neg
+        if not (isinstance(t, ast.Call) and norm(t.func) == "isinstance" and len(t.args) == 2 and norm(t.args[0]) == var):
+            continue
+        kc = close(t.args[1], env, hidden)
+        if isinstance(t.args[1], ast.Name) and t.args[1].id in hidden and t.args[1].id not in env:
+            continue  # a class that is a local name: not a constant class
+        for c in (kc.elts if isinstance(kc, ast.Tuple) else [kc]):
+            yield Arm(norm(c), [n.orelse if neg else n.body], env, fn, n)  # type: ignore[arg-type]
+    # `match var:` - a class pattern without sub-patterns and without a guard is the isinstance test of that class (`case C():`,
+    # `case C() | D():`, `case C() as x:`); a pattern that looks inside the object, or a guarded case, is narrower than the class
+    # and is not an arm of the dispatch on the class
+    for n in ast.walk(fn):
+        if not (isinstance(n, ast.Match) and norm(n.subject) == var):
+            continue
+        for case in n.cases:
+            if case.guard is not None:
+                continue
+            for cls_expr in _class_patterns(case.pattern) or []:
+                yield Arm(norm(close(cls_expr, env, hidden)), list(case.body), env, fn, case.pattern)  # type: ignore[arg-type]
     if not follow or depth <= 0 or var in bound_in(fn):
         return
     owner = class_of_function(mod, fn)
@@ -1309,3 +1376,51 @@ def dispatch_arms(repo: Repo, mod: Module, fn: ast.AST, var: str, env: Optional[
 def arm_code(mod: Module, arm: Arm) -> list[ast.AST]:
     """the arm and the functions of the module it calls (reached_code), the arm's table names standing for their entries"""
     return reached_code(mod, list(arm.body), class_of_function(mod, arm.fn), arm.env)
+
+
+def value_arms(fn: ast.AST, subjects: tuple) -> Iterator[tuple[object, list]]:
+    """(constant, statements) for the arms of fn's dispatch on the VALUE of one of `subjects` (normalised source texts; None
+    entries are ignored): the body of `if <subject> == <constant>:` and the body of `case <constant>:` (also `case a | b:`) in a
+    `match <subject>:` without a guard - a value pattern compares with ==, as the if does."""
+    subj = {x for x in subjects if x}
+    for n in ast.walk(fn):
+        if (isinstance(n, ast.If) and isinstance(n.test, ast.Compare) and len(n.test.ops) == 1 and isinstance(n.test.ops[0], ast.Eq)
+                and norm(n.test.left) in subj and isinstance(n.test.comparators[0], ast.Constant)):
+            yield n.test.comparators[0].value, list(n.body)
+        elif isinstance(n, ast.Match) and norm(n.subject) in subj:
+            for case in n.cases:
+                if case.guard is not None:
+                    continue
+                pats = case.pattern.patterns if isinstance(case.pattern, ast.MatchOr) else [case.pattern]
+                if all(isinstance(q, ast.MatchValue) and isinstance(q.value, ast.Constant) for q in pats):
+                    for q in pats:
+                        yield q.value.value, list(case.body)  # type: ignore[attr-defined]
+
+
+def row_comprehension(e: ast.expr) -> Optional[ast.AST]:
+    """the comprehension that builds the list e evaluates to, one element per pass: `[.. for ..]`, a generator expression, or
+    one of them handed to list() / tuple(); None for anything else"""
+    if isinstance(e, ast.Call) and isinstance(e.func, ast.Name) and e.func.id in ("list", "tuple") and len(e.args) == 1 and not e.keywords:
+        e = e.args[0]
+    if isinstance(e, (ast.ListComp, ast.GeneratorExp)) and len(e.generators) >= 1:
+        return e
+    return None
+
+
+def arm_results(mod: Module, arm: "Arm") -> list[ast.expr]:
+    """the expressions whose value the function hands back when the arm runs: the values of the `return`s in the arm's statements
+    and, for an arm that is the branch of a conditional expression, that branch when the conditional expression is what is returned
+    (directly, or through a local name that is returned)"""
+    out: list[ast.expr] = []
+    returned = {r.value.id for r in own_nodes(arm.fn) if isinstance(r, ast.Return) and isinstance(r.value, ast.Name)}
+    for s in arm.body:
+        if isinstance(s, ast.expr) and isinstance(arm.test, ast.IfExp):
+            par = mod.parent.get(id(arm.test))
+            if isinstance(par, ast.Return) or (isinstance(par, ast.Assign) and any(isinstance(t, ast.Name) and t.id in returned for t in par.targets)) or (
+                    isinstance(par, ast.AnnAssign) and isinstance(par.target, ast.Name) and par.target.id in returned):
+                out.append(s)
+            continue
+        for x in ast.walk(s):
+            if isinstance(x, ast.Return) and x.value is not None:
+                out.append(x.value)
+    return out
